@@ -74,10 +74,31 @@ def main(path):
                     res["files"] = {fn: hashlib.sha256((o / fn).read_bytes()).hexdigest() for fn in sorted(os.listdir(o))}
                 except Exception as e:
                     res["conf_error"] = type(e).__name__ + ": " + str(e)[:120]
+                # the same with coarse scores (one decimal): exact ties at every level, inside proteins and inside
+                # target/decoy protein pairs, so that every tie-break of the confidence stage is exercised
+                o2 = d / ("tied_" + tag)
+                o2.mkdir()
+                try:
+                    mokapot.assign_confidence(dss, max_workers=case["workers"], scores=[np.round(s, 1) for s in scores],
+                                              descs=list(descs), eval_fdr=0.5, dest_dir=o2,
+                                              prefixes=[None] * len(paths) if len(paths) == 1 else
+                                              ["c%d" % i for i in range(len(paths))], decoys=True, proteins=P,
+                                              rng=case["seed"])
+                    res["files_tied"] = {fn: hashlib.sha256((o2 / fn).read_bytes()).hexdigest() for fn in sorted(os.listdir(o2))}
+                except Exception as e:
+                    res["conf_tied_error"] = type(e).__name__ + ": " + str(e)[:120]
             return res, ms
 
+        # interpreter-global generator state is not part of the analysis: it differs between the two runs (and
+        # between worker interpreters), as it does between any two sessions of a user
+        import random as _random
+        g0 = int(os.environ.get("PYTHONHASHSEED") or 0) % 1000003
+        np.random.seed(g0 + 1)
+        _random.seed(g0 + 1)
         r1, ms = analysis("run1")
         out["run1"] = r1
+        np.random.seed(g0 + 77)
+        _random.seed(g0 + 77)
         r2, _ = analysis("run2")
         out["run2_equal"] = (r1 == r2)
         if r1 != r2:
